@@ -401,8 +401,10 @@ typedef unsigned long uintptr_t;
         RETURN_ESLEWRNG;                                                       \
     }
 #else /* WARN_DMAX */
+/* the RSIZE limits apply to a destination of known size as well (K.3.7.1:
+   "shall not be greater than RSIZE_MAX") */
 #define CHK_DEST_OVR_CLEAR(func, destbos)                                      \
-    if (unlikely(dmax > destbos)) {                                            \
+    if (unlikely(dmax > destbos || dmax > RSIZE_MAX_STR)) {                                            \
         if (dmax > RSIZE_MAX_STR) {                                            \
             handle_error(dest, destbos, func ": dmax exceeds max", ESLEMAX);   \
             return RCNEGATE(ESLEMAX);                                          \
@@ -412,7 +414,7 @@ typedef unsigned long uintptr_t;
         }                                                                      \
     }
 #define CHK_DEST_OVR(func, destbos)                                            \
-    if (unlikely(dmax > destbos)) {                                            \
+    if (unlikely(dmax > destbos || dmax > RSIZE_MAX_STR)) {                                            \
         if (dmax > RSIZE_MAX_STR) {                                            \
             invoke_safe_str_constraint_handler(func ": dmax exceeds max",      \
                                                (void *)dest, ESLEMAX);         \
@@ -424,7 +426,7 @@ typedef unsigned long uintptr_t;
         }                                                                      \
     }
 #define CHK_DESTW_OVR(func, destsz, destbos)                                   \
-    if (unlikely(destsz > destbos)) {                                          \
+    if (unlikely(destsz > destbos || dmax > RSIZE_MAX_WSTR)) {                                          \
         if (dmax > RSIZE_MAX_WSTR) {                                           \
             invoke_safe_str_constraint_handler(func ": dmax exceeds max",      \
                                                (void *)dest, ESLEMAX);         \
@@ -436,7 +438,7 @@ typedef unsigned long uintptr_t;
         }                                                                      \
     }
 #define CHK_DESTW_OVR_CLEAR(func, destsz, destbos)                             \
-    if (unlikely(destsz > destbos)) {                                          \
+    if (unlikely(destsz > destbos || dmax > RSIZE_MAX_WSTR)) {                                          \
         if (dmax > RSIZE_MAX_WSTR) {                                           \
             handle_werror(dest, destbos / sizeof(wchar_t),                     \
                           func ": dmax exceeds max", ESLEMAX);                 \
@@ -448,7 +450,7 @@ typedef unsigned long uintptr_t;
         }                                                                      \
     }
 #define CHK_DEST_OVR_BOOL(func, destbos)                                       \
-    if (unlikely(dmax > destbos)) {                                            \
+    if (unlikely(dmax > destbos || dmax > RSIZE_MAX_STR)) {                                            \
         if (dmax > RSIZE_MAX_STR) {                                            \
             invoke_safe_str_constraint_handler(func ": dmax exceeds max",      \
                                                (void *)dest, ESLEMAX);         \
@@ -459,7 +461,7 @@ typedef unsigned long uintptr_t;
         return false;                                                          \
     }
 #define CHK_DEST_MEM_OVR(func, destbos)                                        \
-    if (unlikely(dmax > destbos)) {                                            \
+    if (unlikely(dmax > destbos || dmax > RSIZE_MAX_MEM)) {                                            \
         if (dmax > RSIZE_MAX_MEM) {                                            \
             invoke_safe_mem_constraint_handler(func ": dmax exceeds max",      \
                                                (void *)dest, ESLEMAX);         \
